@@ -199,6 +199,7 @@ def r2(ctx, F, rule, sfx):
 
 
 def r3(ctx, F, rule, sfx):
+    wrappers_forward(ctx, F, rule, sfx)
     cci = F.body_by_suffix('ConvexCell::compute_cell_integral')
     no = [x['path'] for x in F.bodies if strip_generics(x['path']).endswith('ConvexCell::decompose')]
     no += [x['path'] for x in F.bodies if 'ConvexCellDecomposition' in x['path'] and x['path'].endswith('::next')]
